@@ -154,12 +154,12 @@ Definition tok_acc (t : tok) (g : list piece) : Prop :=
   match tvalue t with
   | Some v => g <> [] /\ (exists sp, get_out (lws O g) (outs tr) = Some (sp, v)) /\ tstart t = pstart (hd dpiece g) /\ starts_word t /\
               made_of O text (tstring t) g
-  | None => exists p, g = [p] /\ In p P /\ is_word_piece O p = true /\ t = unmatched p
+  | None => exists p, g = [p] /\ In p P /\ is_word_piece O p = true /\ t = unmatched p /\ In t (t_tokenize O tr text)
   end.
 
 Theorem tokens_accounted : Forall (fun t => tok_acc t (grp t)) (t_tokenize O tr text).
 Proof.
-  apply Forall_forall. intros t Ht. unfold t_tokenize in Ht. apply retok_from_word in Ht as [Hm|[p [Hp [Hw ->]]]].
+  apply Forall_forall. intros t Ht. pose proof Ht as Ht0. unfold t_tokenize in Ht. apply retok_from_word in Ht as [Hm|[p [Hp [Hw ->]]]].
   - apply fo_sub in Hm. destruct (matched_group t Hm) as [sp [v [Ev [Hne [G [Hs [Hw Hmo]]]]]]].
     unfold tok_acc. rewrite Ev. split; [exact Hne|]. split; [exists sp; exact G|]. split; [exact Hs|]. split; [exact Hw | exact Hmo].
   - unfold tok_acc. cbn [tvalue unmatched]. exists p. split; [apply unmatched_group; assumption|]. repeat split; assumption.
@@ -178,6 +178,8 @@ Notation tr := (build_trie O T).
 Notation P := (pieces O text).
 
 Definition wordp (p : piece) : Prop := In p P /\ is_word_piece O p = true.
+(* the piece was left unmatched by Trie.tokenize: it is one of its value-less tokens *)
+Definition unm_p (p : piece) : Prop := In (unmatched p : ltok) (t_tokenize O tr text).
 
 Lemma wordp_word p : wordp p -> word O (ptext p).
 Proof.
@@ -217,22 +219,22 @@ Definition tok_acc1 (t : ltok) (g : list piece) : Prop :=
   match tvalue t with
   | Some v => (exists sp, get_out (lws O g) (outs tr) = Some (sp, v)) \/
               (exists sy, v = VSym sy /\ exc sy = false /\ key sy = join_sp (map ptext g) /\ Forall wordp g /\
-                          tstring t = join_sp (map ptext g))
+                          tstring t = join_sp (map ptext g) /\ Forall unm_p g)
   | None => False
   end.
 
 Definition pending_ok (unm : list ltok) (gu : list piece) : Prop :=
   map (fun t => tstring t) (rev unm) = map ptext gu /\ Forall wordp gu /\
   (forall t, In t unm -> tok_blank O t = false) /\
-  match rev unm with t0 :: _ => tstart t0 = pstart (hd dpiece gu) | [] => True end.
+  match rev unm with t0 :: _ => tstart t0 = pstart (hd dpiece gu) | [] => True end /\ Forall unm_p gu.
 
 Lemma pending_nil : pending_ok [] [].
-Proof. repeat split; [constructor | intros t []]. Qed.
+Proof. repeat split; [constructor | intros t [] | constructor]. Qed.
 
 Lemma flush_acc unm gu r : pending_ok unm gu -> flush_unknown O unm = Ok r ->
   exists gs', Forall2 tok_acc1 r gs' /\ concat gs' = gu.
 Proof.
-  intros [Hs [Hw [Hb Hst]]] Hf. destruct unm as [|u rest].
+  intros [Hs [Hw [Hb [Hst Hun]]]] Hf. destruct unm as [|u rest].
   - cbn in Hf. inversion Hf; subst. destruct gu; [|discriminate]. exists []. split; [constructor | reflexivity].
   - pose proof (flush_nonblank u rest Hb) as Hfl. rewrite Hfl in Hf. clear Hfl.
     remember (rev (u :: rest)) as ru eqn:Eru.
@@ -272,14 +274,14 @@ Proof.
         destruct Ht as [Hne [Hg [Hs [Hsw Hmo]]]]. unfold tok_acc1. rewrite Ev. split; [exact Hne|]. split; [exact Hs|]. split; [exact Hsw|].
         split; [exact Hmo | left; exact Hg].
       * rewrite concat_app. cbn [concat]. rewrite E1, E2. reflexivity.
-    + destruct Ht as [p [-> [HpP [Hw ->]]]].
+    + destruct Ht as [p [-> [HpP [Hw [-> Hin]]]]].
       assert (Hnb : tok_blank O (unmatched p : ltok) = false).
       { unfold tok_blank, unmatched. cbn [tstring]. destruct (wordp_word p (conj HpP Hw)) as [Hne Hns].
         destruct (ptext p) as [|c r0]; [contradiction|]. unfold blank. cbn [forallb]. unfold nospace in Hns. cbn [forallb] in Hns.
         apply andb_true_iff in Hns as [Hc _]. apply negb_true_iff in Hc. rewrite Hc. reflexivity. }
-      destruct Hp as [Hs [Hww [Hbl Hst]]].
+      destruct Hp as [Hs [Hww [Hbl [Hst Hun]]]].
       assert (Hp' : pending_ok (unmatched p :: unm) (gu ++ [p])).
-      { split; [|split; [|split]].
+      { split; [|split; [|split; [|split]]]; [| | | |apply Forall_app; split; [exact Hun | constructor; [exact Hin | constructor]]].
         - cbn [rev]. rewrite !map_app. rewrite Hs. reflexivity.
         - apply Forall_app. split; [exact Hww | constructor; [split; assumption | constructor]].
         - intros t [<-|Ht]; [exact Hnb | apply Hbl; exact Ht].
@@ -375,7 +377,7 @@ Definition kw_acc (k : kw) (g : list piece) : Prop :=
   exists name, In (name, VKw k) keyword_adds /\ lws O g = lwords O name.
 Definition sym_acc (s : sym) (g : list piece) : Prop :=
   (exists name, In (name, VSym s) (flat_map (entry_adds O) T) /\ lws O g = lwords O name) \/
-  (exc s = false /\ key s = join_sp (map ptext g) /\ Forall wordp g /\ g <> []).
+  (exc s = false /\ key s = join_sp (map ptext g) /\ Forall wordp g /\ g <> [] /\ Forall unm_p g).
 
 Lemma stored_in_table g sp v : get_out (lws O g) (outs tr) = Some (sp, v) ->
   In (sp, v) (keyword_adds ++ flat_map (entry_adds O) T) /\ lwords O sp = lws O g.
@@ -412,7 +414,7 @@ Proof.
   intros [Hne [Hs [_ [Hmo Hv]]]]. split; [exact Hne|]. split; [exact Hs|]. split; [exact Hmo|].
   destruct (tvalue t) as [[k|s]|]; [| |exact Hv].
   - destruct Hv as [[sp G]|[sy [E _]]]; [apply (value_kw g sp k G) | discriminate].
-  - destruct Hv as [[sp G]|[sy [E [He [Hk [Hw _]]]]]]; [apply (value_sym g sp s G)|].
+  - destruct Hv as [[sp G]|[sy [E [He [Hk [Hw [_ Hun]]]]]]]; [apply (value_sym g sp s G)|].
     inversion E; subst sy. right. repeat split; try assumption.
 Qed.
 
